@@ -25,6 +25,9 @@ BIG = ('$T', 12)
 MENU = [[], [0], ['x'], [0, 'x'], [0, 0], ['x', 0], [0, 'x', 0], [1]]
 
 
+from .c12 import small_files  # noqa: E402
+
+
 def norm(result):
     if isinstance(result, collections.deque):
         return ('deque', list(result), result.maxlen)
@@ -114,6 +117,7 @@ class DequeWorld(World):
         items = [val(x) for x in init]
         self.owner = None
         if source == 'plain':
+            small_files(self.dir)
             self.d = dc.Deque(items, directory=self.dir, maxlen=maxlen)
         elif source == 'fanout':
             self.owner = dc.FanoutCache(self.dir, shards=2)
@@ -234,6 +238,7 @@ class DequeScenario(ObjScenario):
 
     def make(self, directory):
         import diskcache as dc
+        small_files(directory)
         return dc.Deque(directory=directory, maxlen=self.maxlen)
 
     def do(self, d, op):
@@ -273,9 +278,9 @@ def sched_plan(tier):
         (None, [[('append', BIG)], [PL]], init1, None),
         (1, [[A], [A2]], init1, None),
         (1, [[A], [P]], init1, None),
-        (1, [[A], [A2], [P]], [], 2),
-        (None, [[A], [P], [PL]], init1, 2),
-        (None, [[A], [A2], [PL]], [], 2),
+        (1, [[A], [A2], [P]], [], 1 if tier == 'quick' else 2),
+        (None, [[A], [P], [PL]], init1, 1 if tier == 'quick' else 2),
+        (None, [[A], [A2], [PL]], [], 1 if tier == 'quick' else 2),
     ]
     return units
 
@@ -283,10 +288,11 @@ def sched_plan(tier):
 def work(unit):
     kind = unit[0]
     if kind == 'bfs':
-        _, maxlen, init, source, depth, tier, seed, cap = unit
+        _, maxlen, init, source, depth, tier, seed, cap, chunk, nchunks = unit
         ab = run.shuffled(alphabet(tier), seed, 'dq')
         part = seq.bfs(lambda: DequeWorld(maxlen, init, source), ab, depth,
-                       label='deque', time_cap=cap)
+                       label='deque', time_cap=cap,
+                       first=ab[chunk::nchunks])
         part['label'] = 'bfs/%s' % source
         return part
     _, maxlen, programs, init, bound, cap = unit
@@ -302,10 +308,15 @@ def main(tier, seed):
     cap = 200 if tier == 'quick' else 3000
     depth = 2 if tier == 'quick' else 3
     units = []
-    for maxlen, init in STARTS:
-        units.append(('bfs', maxlen, init, 'plain', depth, tier, seed, cap))
-    units.append(('bfs', 2, (0,), 'fanout', depth, tier, seed, cap))
-    units.append(('bfs', None, ('x', 0), 'django', depth, tier, seed, cap))
+    nch = 3
+    for ch in range(nch):
+        for maxlen, init in STARTS:
+            units.append(('bfs', maxlen, init, 'plain', depth, tier, seed,
+                          cap, ch, nch))
+        units.append(('bfs', 2, (0,), 'fanout', depth, tier, seed, cap, ch,
+                      nch))
+        units.append(('bfs', None, ('x', 0), 'django', depth, tier, seed, cap,
+                      ch, nch))
     for maxlen, programs, init, bound in sched_plan(tier):
         units.append(('sched', maxlen, programs, init, bound, cap))
     units = run.shuffled(units, seed)
